@@ -31,14 +31,18 @@ import contracts.c07_genmpo as GM
 from contracts.c07_genmpo import h_generate_mpo_product, h_generate_mpo_rejects
 from contracts.ops_algebra import h_onsite_algebra, h_operator_dicts
 
-BOUNDED_HARNESSES = {'h_onsite_algebra', 'h_operator_dicts'}
+import contracts.measure_bounded as MBD
+from contracts.measure_bounded import h_generator_latex, h_sample_probabilities
+BOUNDED_HARNESSES = {'h_onsite_algebra', 'h_operator_dicts', 'h_generator_latex', 'h_sample_probabilities'}
 
 FUNCTIONS = FUNCTIONS + GM.FUNCTIONS
 NOT_DECIDED = [
     "generate_mpo for sums of terms: proved for symbolic amplitudes on enumerated term lists (hopping, c + n.c, cp.n.c, descending / same-site, "
     "three operators on two sites) x f_map permutations on N = 3 (4) spinless fermions, with svd_with_truncation entering through its contract "
-    "(exact factorisation); NOT decided: that the real SVD compression at tol 1e-13 is lossless, other operator families, Generator / latex2term",
-    "measure_1site, rdm, sample probabilities; dense equality of any expectation value (floating point)",
+    "(exact factorisation); NOT decided: that the real SVD compression at tol 1e-13 is lossless, other operator families; Generator / latex2term: only the "
+    "bounded stand-in (h_generator_latex: seven string shapes x four families against explicit Jordan-Wigner sums)",
+    "sample probabilities: only the bounded stand-in (h_sample_probabilities: reported probability = Born probability of the drawn configuration); "
+    "rdm and measure_1site/2site/nsite are proved as polynomial identities on small chains (h_rdm_values, h_measure_values)",
     "on-site (anti)commutation relations of the predefined operator families: only the bounded stand-in (h_onsite_algebra, "
     "h_operator_dicts: exhaustive over families x symmetries, floating point) -- not a proof",
 ]
@@ -237,12 +241,12 @@ def h_measure_nsite(V, N, symname, fermionic, sites):
 
 
 import contracts.mps_values as MV
-from contracts.mps_values import h_pbc_values, h_mpo_mpo_values, h_complex_values, h_reverse_values, h_generate_mpo_values, h_env3_refresh, h_overlap_values, h_mpo_values, h_env3_values, h_env_sum_project_values, h_measure_values
+from contracts.mps_values import h_pbc_values, h_mpo_mpo_values, h_complex_values, h_reverse_values, h_generate_mpo_values, h_env3_refresh, h_overlap_values, h_mpo_values, h_env3_values, h_env_sum_project_values, h_measure_values, h_rdm_values
 FUNCTIONS = list(FUNCTIONS) + [f_ for f_ in MV.FUNCTIONS if f_ not in FUNCTIONS]
 
 
 def units(tier):
-    U = OA.units_c07(tier) + GM.units(tier) + MV.units(tier, 'C07') + MV.genmpo_units(tier)
+    U = OA.units_c07(tier) + MBD.units_c07(tier) + GM.units(tier) + MV.units(tier, 'C07') + MV.genmpo_units(tier)
     th = tier == 'thorough'
     Ns = range(2, (7 if th else 5) + 1)
     for N in Ns:
